@@ -73,20 +73,25 @@ def run(ctx):
             raise Machinery("self-test: stale critical-section read accepted")
         evs = [json.loads(x) for x in open(files[0][1])]
         done = False
+        # a failed trylock whose whole call lies inside another thread's critical section (after that thread's lock returned,
+        # before it called unlock): forging it into a success must be rejected whatever the linearization
+        holder = {}      # object -> thread that certainly holds it
+        pendop = {}      # thread -> (index of call, op, object)
         for i, e in enumerate(evs):
-            if e["e"] == "call" and e["op"] == "wtry" and e["xres"] == 0:
-                e["xres"] = 1
-                for j in range(i + 1, len(evs)):
-                    if evs[j]["e"] == "ret" and evs[j]["t"] == e["t"]:
-                        evs[j]["res"] = 1
-                        done = True
-                        break
-                break
-        if done:
-            p = traces.write(evs[: j + 5], ctx.path("selftest2.ndjson"))
-            ok, matched, r = tlc.validate_trace("sync/LockLin.tla", p, cfg="LockLin_strict.cfg")
-            if ok:
-                raise Machinery("self-test: trylock TRUE on a held lock accepted")
+            if e["e"] == "call":
+                pendop[e["t"]] = (i, e["op"], e["o"], holder.get(e["o"]))
+                if e["op"] == "wunlock" and holder.get(e["o"]) == e["t"]:
+                    holder.pop(e["o"], None)
+            elif e["e"] == "ret" and e["t"] in pendop:
+                ci, op, o, held_at_call = pendop.pop(e["t"])
+                if op in ("wlock", "wtry") and e["res"] == 1:
+                    holder[o] = e["t"]
+                elif op == "wtry" and e["res"] == 0 and held_at_call is not None and holder.get(o) == held_at_call and held_at_call != e["t"]:
+                    evs[ci]["xres"] = 1
+                    e["res"] = 1
+                    j = i
+                    done = True
+                    break
         ctx.extra["selftest"] = "stale read rejected; forged trylock success %s" % ("rejected" if done else "not applicable (no failed trylock in sample)")
     ctx.assumptions += ["memory-order weakening that produces identical x86-64 code cannot be observed (DESIGN.md 3 C01)",
                         "real-thread histories are samples of the schedule space; exclusion for all interleavings is proved on the SpinCAS I-spec only"]
